@@ -617,6 +617,33 @@ def forwarded_yields(chk: Check, eng: Engine, rule: str) -> None:
                     attr = self_attr(target)
                     used = any(isinstance(y, (ast.YieldFrom, ast.Yield)) and y.value is not None and any(self_attr(x) == attr for x in ast.walk(y.value))
                                for m in (f.cls.methods.values() if f.cls else []) for y in walk_local(m.node))
+                    # ... or yields a local that was taken out of the buffer (`tree = self.buf.pop(0); yield tree`)
+                    for m in (f.cls.methods.values() if f.cls else []):
+                        taken: dict[str, int] = {}
+                        for a_ in walk_local(m.node):
+                            if isinstance(a_, ast.Assign) and any(self_attr(x) == attr for x in ast.walk(a_.value)):
+                                for t_ in a_.targets:
+                                    for x in ([t_] if isinstance(t_, ast.Name) else list(t_.elts) if isinstance(t_, (ast.Tuple, ast.List)) else []):
+                                        if isinstance(x, ast.Name):
+                                            taken.setdefault(x.id, a_.lineno)
+                        if not taken:
+                            continue
+                        ys = [y for y in walk_local(m.node) if isinstance(y, (ast.YieldFrom, ast.Yield)) and y.value is not None
+                              and any(isinstance(x, ast.Name) and x.id in taken for x in ast.walk(y.value))]
+                        if ys:
+                            used = True
+                        # the whole buffer moved into a local and emptied *before* its contents are handed out: a consumer that stops early loses the rest
+                        for y in ys:
+                            if not isinstance(y, ast.YieldFrom):
+                                continue
+                            for e_ in walk_local(m.node):
+                                emptied = (isinstance(e_, ast.Assign) and any(self_attr(x) == attr and isinstance(getattr(x, "ctx", None), ast.Store) for t_ in e_.targets for x in ast.walk(t_))) or \
+                                          (isinstance(e_, ast.Call) and isinstance(e_.func, ast.Attribute) and e_.func.attr == "clear" and self_attr(e_.func.value) == attr)
+                                if emptied and e_.lineno <= y.lineno:
+                                    chk.bad(rule, eng.relfile(m), y.lineno, m.fq, f"`self.{attr}` is emptied (line {e_.lineno}) before `{short(y, 50)}` has handed out what it held",
+                                            "the evaluator has already recorded these trees as reported; when the consumer stops before the delegated generator is exhausted "
+                                            "(a `break`, `islice`, a desired number of solutions) the rest is gone for good: a later request never yields them",
+                                            keyparts=f"buffer-emptied-before-handout|{attr}")
             lost = None
             if used and isinstance(target, ast.Name):
                 lost = _collected_yields_can_be_lost(eng, f, c, target.id)
@@ -691,7 +718,10 @@ def _buffer_flush_is_conditional(eng: Engine, cls: ClassInfo, attr: str) -> Opti
     and on every path: the flush is a top-level statement at the head of that generator, or of a generator it delegates to unconditionally
     at its head.  (The protocol-mode generator is exempt, see R20-d.)"""
     def flushes(st: ast.stmt) -> bool:
-        return any(isinstance(y, (ast.Yield, ast.YieldFrom)) and y.value is not None and any(self_attr(x) == attr for x in ast.walk(y.value)) for y in ast.walk(st))
+        # yields the buffer (or an element of it) directly, or through a local taken out of it inside the same statement (`t = self.buf.pop(0); yield t`)
+        taken = {t.id for a in ast.walk(st) if isinstance(a, ast.Assign) and any(self_attr(x) == attr for x in ast.walk(a.value)) for t in a.targets if isinstance(t, ast.Name)}
+        return any(isinstance(y, (ast.Yield, ast.YieldFrom)) and y.value is not None
+                   and any(self_attr(x) == attr or (isinstance(x, ast.Name) and x.id in taken) for x in ast.walk(y.value)) for y in ast.walk(st))
 
     def head_flush(m: FuncInfo, depth: int = 0) -> bool:
         for st in m.node.body:  # type: ignore[attr-defined]
@@ -905,6 +935,7 @@ _EV = "src/fandango/evolution/evaluation.py"
 _FT = "src/fandango/constraints/fitness.py"
 _CMP = "src/fandango/constraints/comparison.py"
 MUTANTS = [
+    M("initial-solutions-moved-out-before-the-hand-out", "src/fandango/evolution/algorithm.py", '        while self._initial_solutions:\n            yield self._initial_solutions.pop(0)\n', '        initial_solutions, self._initial_solutions = self._initial_solutions, []\n        yield from initial_solutions\n', "R03-f"),
     M("seed-solutions-flushed-only-when-refilling", "src/fandango/evolution/algorithm.py", "        while self._initial_solutions:\n            yield self._initial_solutions.pop(0)\n\n        if len(self.population) < self.population_size:\n            yield from self.generate_initial_population()\n",
       "        if len(self.population) < self.population_size:\n            while self._initial_solutions:\n                yield self._initial_solutions.pop(0)\n            yield from self.generate_initial_population()\n", "R03-f"),
     M("refill-reports-only-unique-candidates", "src/fandango/evolution/population.py", "                yield from found_solution\n                yield from new_found_solution\n                if not added:\n                    attempts += 1\n",
@@ -931,6 +962,7 @@ MUTANTS = [
       "                self.fandango.average_population_fitness * 1.0001\n                < self.fandango.evaluator.expected_fitness", "R03-c"),
 ]
 TWINS = [
+    M("twin-initial-solution-popped-into-a-local", "src/fandango/evolution/algorithm.py", '        while self._initial_solutions:\n            yield self._initial_solutions.pop(0)\n', '        while self._initial_solutions:\n            solution = self._initial_solutions.pop(0)\n            yield solution\n', None),
     M("twin-average-extracted-into-helper", "src/fandango/constraints/fitness.py", "    def fitness(self) -> float:\n        \"\"\"\n        Calculates the fitness of the tree based on the values.\n        This is the same as `ValueFitness`.\n        \"\"\"\n        if self.values:\n            try:\n                return sum(self.values) / len(self.values)\n            except OverflowError:\n                # OverflowError: integer division result too large for a float\n                return sum(self.values) // len(self.values)\n        else:\n            return 0\n",
       "    def fitness(self) -> float:\n        return _average_of(self.values)\n", None,
       more=(("class Fitness(abc.ABC):", "def _average_of(values):\n    if not values:\n        return 0\n    try:\n        return sum(values) / len(values)\n    except OverflowError:\n        return sum(values) // len(values)\n\n\nclass Fitness(abc.ABC):"),)),
